@@ -32,6 +32,19 @@ def pure_copy():
     return d
 
 
+def compiled_copy():
+    """pure copy + refs.py cythonized from the (patched) working tree, for demos that compare the two builds"""
+    d = pure_copy()
+    script = ("from setuptools import setup, Extension\n"
+              "from Cython.Build import cythonize\n"
+              "setup(name='x', ext_modules=cythonize([Extension('xdeps.refs', ['xdeps/refs.py'])], "
+              "language_level=3, quiet=True), script_args=['build_ext', '--inplace', '-q'])\n")
+    r = subprocess.run([PY, "-c", script], cwd=d, env=dict(os.environ, CFLAGS="-O0"), capture_output=True, text=True, timeout=900)
+    if r.returncode != 0:
+        raise SystemExit("cythonize failed: " + r.stderr[-1500:])
+    return d
+
+
 def do_import(wt, sid, prop):
     dst = os.path.join(VERIF, "seeded", sid)
     os.makedirs(dst, exist_ok=True)
@@ -40,6 +53,7 @@ def do_import(wt, sid, prop):
     demo = open(os.path.join(wt, "demo.py")).read()
     demo = re.sub(r"sys\.path\.insert\(0,\s*['\"]%s['\"]\)" % re.escape(wt),
                   "sys.path.insert(0, __import__('os').environ.get('XDEPS_SRC', '/repo'))", demo)
+    demo = demo.replace("WT = '%s'" % wt, "WT = __import__('os').environ.get('XDEPS_COMPILED', '/repo')")
     demo = demo.replace(wt, "/repo")
     open(os.path.join(dst, "demo.py"), "w").write(demo)
     if os.path.exists(os.path.join(wt, "NOTES.md")):
@@ -53,7 +67,16 @@ def do_import(wt, sid, prop):
 
 
 def run_demo(src):
-    r = sh([PY, os.path.join(src, "..", "demo.py")] if False else [PY, "demo.py"], cwd=src["dir"], env=dict(os.environ, XDEPS_SRC=src["copy"]), timeout=600)
+    env = dict(os.environ, XDEPS_SRC=src["copy"])
+    cc = None
+    if "XDEPS_COMPILED" in open(os.path.join(src["dir"], "demo.py")).read():
+        cc = compiled_copy()
+        env["XDEPS_COMPILED"] = cc
+    try:
+        r = sh([PY, "demo.py"], cwd=src["dir"], env=env, timeout=900)
+    finally:
+        if cc:
+            shutil.rmtree(cc, True)
     return r.returncode, (r.stdout + r.stderr)[-600:]
 
 
